@@ -2,7 +2,7 @@
    The keys are the keys of the generator's message table; "internal class as type" depends on what has been imported so far
    and is not one of the features of the statement: the theorems allow it in addition (Proofs/MarkerProofs.v: covers). *)
 From Coq Require Import List String Ascii Bool Arith. Import ListNotations.
-From SV Require Import Lib.Str Gen.Tables Model.Types Model.Api Model.Back.
+From SV Require Import Lib.Str Gen.Tables Model.Types Model.Naming Model.Api Model.Back.
 
 Definition INTERNAL : str := K"internal class as type".
 
@@ -120,3 +120,17 @@ Section WithNaming.
   Definition property_marks (f : func) : list str :=
     tmarks (TUnion (flat_map (fun r => match r_type r with Some t => [t] | None => [] end) (f_results f))).
 End WithNaming.
+
+(* ---- the class header ---- *)
+Definition MI : str := K"multiple_inheritance".
+(* the names of the `sub` clause: the public superclasses in declaration order (none for an abstract class) *)
+Definition class_super_names (c : cls) : list str :=
+  if nonempty (c_supers c) && negb (is_abstract c)
+  then map super_name (filter (fun sc => negb (is_internal (super_name sc))) (c_supers c)) else [].
+Definition class_inheritance_marks (c : cls) : list str :=
+  if 2 <=? List.length (class_super_names c) then [MI] else [].
+(* first block: the constructor's parameters (without the receiver) and the bounds of the type parameters *)
+Definition class_sig_marks (c : cls) : list str :=
+  (if is_abstract c then [] else match c_ctor c with Some k => flat_map param_marks (tl (f_params k)) | None => [] end) ++
+  (if nonempty (c_tparams c) || nonempty (match c_ctor c with Some k => f_tvars k | None => [] end)
+   then flat_map (fun tp => match tp_type tp with Some t => tmarks t | None => [] end) (c_tparams c) else []).
